@@ -174,6 +174,11 @@ def process_function(res, rep, contract, repo, findings, opts):
                     'solver_model': (r['model'] or {}).get('__raw__', '')}
             if contract.build:
                 spec['args'] = args
+                if contract.ghost.get('search'):
+                    import itertools as _it
+                    keys = list(contract.ghost['search'])
+                    combos = list(_it.product(*[contract.ghost['search'][k] for k in keys]))[:400]
+                    spec['variants'] = [dict(zip(keys, c)) for c in combos]
             path = obligation_file(pid, name)
             if os.environ.get('PYVC_REPLAY_DIR'):
                 path = os.path.join(os.environ['PYVC_REPLAY_DIR'], os.path.relpath(path, 'replay'))
@@ -186,6 +191,10 @@ def process_function(res, rep, contract, repo, findings, opts):
             tried.append((r, spec, verdict, path))
             if verdict.get('confirmed'):
                 any_confirmed = True
+                if verdict.get('witness_args'):
+                    spec['args'] = verdict['witness_args']
+                    args = verdict['witness_args']
+                    json.dump(spec, open(full, 'w'), indent=1, default=str)
                 known = [f for f in findings if f['property'] == pid and finding_matches(f, name, spec['args'] if not contract.build else args)]
                 if known:
                     line = 'KNOWN-FINDING: property=%s %s' % (pid, known[0]['what'])
